@@ -32,11 +32,17 @@ const (
 	timeStepSec = 60
 )
 
-// slots of chaincfg.Params.Deployments
+// slots of chaincfg.Params.Deployments.  Block acceptance itself asks for the
+// state of the CSV and segwit deployments at the parent of every block
+// (checkBlockContext), so the specification's Implicit deployments must sit
+// there; any other deployment may sit anywhere (the real cache is then a
+// superset of the specification's).  CSV, segwit and taproot gate consensus
+// rules, which is what the gate probes observe.
 var (
 	implicitSlots = []int{chaincfg.DeploymentCSV, chaincfg.DeploymentSegwit}
-	explicitSlots = []int{chaincfg.DeploymentTestDummy, chaincfg.DeploymentTestDummyMinActivation,
-		chaincfg.DeploymentTaproot, chaincfg.DeploymentTestDummyAlwaysActive}
+	gateSlots     = []int{chaincfg.DeploymentCSV, chaincfg.DeploymentSegwit, chaincfg.DeploymentTaproot}
+	dummySlots    = []int{chaincfg.DeploymentTestDummy, chaincfg.DeploymentTestDummyMinActivation,
+		chaincfg.DeploymentTestDummyAlwaysActive}
 )
 
 // node is what the binder knows about one block of the specification's tree.
@@ -148,27 +154,49 @@ func newRealChain(scratch string, w, netThr int, deps []depDef, implicit map[int
 
 	// slots for the specification's deployments
 	imp := append([]int(nil), implicitSlots...)
-	exp := append([]int(nil), explicitSlots...)
-	if rng.Intn(4) == 0 {
+	if rng.Intn(2) == 0 {
 		imp[0], imp[1] = imp[1], imp[0]
 	}
-	rng.Shuffle(len(exp), func(i, j int) { exp[i], exp[j] = exp[j], exp[i] })
+	used := map[int]bool{}
 	rc.slot = make([]int, len(deps))
 	rc.bit = make([]uint8, len(deps))
-	for i, d := range deps {
-		var s int
+	for i := range deps { // implicit deployments first
 		if implicit[i+1] {
 			if len(imp) == 0 {
 				return nil, fmt.Errorf("more implicit deployments than CSV/segwit slots")
 			}
-			s, imp = imp[0], imp[1:]
-		} else {
-			if len(exp) == 0 {
-				return nil, fmt.Errorf("more deployments than slots")
-			}
-			s, exp = exp[0], exp[1:]
+			rc.slot[i], imp = imp[0], imp[1:]
+			used[rc.slot[i]] = true
 		}
-		rc.slot[i] = s
+	}
+	free := func(from []int) []int {
+		var out []int
+		for _, s := range from {
+			if !used[s] {
+				out = append(out, s)
+			}
+		}
+		return out
+	}
+	for i := range deps {
+		if implicit[i+1] {
+			continue
+		}
+		// three times out of four a slot that gates consensus rules
+		cand := free(gateSlots)
+		if len(cand) == 0 || rng.Intn(4) == 0 {
+			if d := free(dummySlots); len(d) > 0 {
+				cand = d
+			}
+		}
+		if len(cand) == 0 {
+			return nil, fmt.Errorf("more deployments than slots")
+		}
+		rc.slot[i] = cand[rng.Intn(len(cand))]
+		used[rc.slot[i]] = true
+	}
+	for i, d := range deps {
+		s := rc.slot[i]
 		rc.bit[i] = takeBit()
 		params.Deployments[s] = chaincfg.ConsensusDeployment{
 			BitNumber:                 rc.bit[i],
@@ -214,6 +242,24 @@ var csvScript = []byte{txscript.OP_1, txscript.OP_CHECKSEQUENCEVERIFY}
 
 const csvOutValue = 1000
 
+// Witness-program shaped outputs: "0 <32 bytes>" (a version 0 script hash
+// program) and "1 <32 bytes>" (a version 1, taproot, program).  Spent with an
+// empty signature script and no witness they are anyone-can-spend until the
+// segwit (respectively segwit and taproot) rules are enforced, and a script
+// failure from then on.
+var (
+	v0Script = append([]byte{txscript.OP_0, txscript.OP_DATA_32}, bytes32(0x11)...)
+	v1Script = append([]byte{txscript.OP_1, txscript.OP_DATA_32}, bytes32(0x22)...)
+)
+
+func bytes32(b byte) []byte {
+	out := make([]byte, 32)
+	for i := range out {
+		out[i] = b
+	}
+	return out
+}
+
 func (rc *realChain) coinbase(height int32, lockTime uint32, sequence uint32) *wire.MsgTx {
 	rc.nonce++
 	script, err := txscript.NewScriptBuilder().AddInt64(int64(height)).AddInt64(rc.nonce).
@@ -227,8 +273,10 @@ func (rc *realChain) coinbase(height int32, lockTime uint32, sequence uint32) *w
 		SignatureScript:  script,
 		Sequence:         sequence,
 	})
-	tx.AddTxOut(&wire.TxOut{Value: blockchain.CalcBlockSubsidy(height, rc.params) - csvOutValue, PkScript: opTrueScript})
+	tx.AddTxOut(&wire.TxOut{Value: blockchain.CalcBlockSubsidy(height, rc.params) - 3*csvOutValue, PkScript: opTrueScript})
 	tx.AddTxOut(&wire.TxOut{Value: csvOutValue, PkScript: csvScript})
+	tx.AddTxOut(&wire.TxOut{Value: csvOutValue, PkScript: v0Script})
+	tx.AddTxOut(&wire.TxOut{Value: csvOutValue, PkScript: v1Script})
 	tx.LockTime = lockTime
 	return tx
 }
@@ -354,11 +402,45 @@ func (rc *realChain) probe112(n *node) *btcutil.Block {
 	return rc.makeBlock(n, vbTopBits, ts, []*wire.MsgTx{cb, tx})
 }
 
+// probeSpend builds a child of n (height >= 1) with a version-1 transaction
+// that spends output idx of n's coinbase with an empty signature script and
+// no witness.
+func (rc *realChain) probeSpend(n *node, idx uint32) *btcutil.Block {
+	ts := rc.absTime(n.mtp).Add(30 * time.Second)
+	cb := rc.coinbase(n.height+1, 0, wire.MaxTxInSequenceNum)
+	tx := wire.NewMsgTx(1)
+	tx.AddTxIn(&wire.TxIn{PreviousOutPoint: *wire.NewOutPoint(&n.cbHash, idx), Sequence: wire.MaxTxInSequenceNum})
+	tx.AddTxOut(&wire.TxOut{Value: csvOutValue, PkScript: opTrueScript})
+	return rc.makeBlock(n, vbTopBits, ts, []*wire.MsgTx{cb, tx})
+}
+
+// probeV0 spends the version 0 witness program output without a witness:
+// refused by the script engine exactly when the segwit rules are enforced.
+func (rc *realChain) probeV0(n *node) *btcutil.Block { return rc.probeSpend(n, 2) }
+
+// probeV1 spends the version 1 witness program output without a witness:
+// refused exactly when the taproot rules are enforced (which takes segwit).
+func (rc *realChain) probeV1(n *node) *btcutil.Block { return rc.probeSpend(n, 3) }
+
+// probeCommit builds a child of n whose coinbase carries a witness nonce and
+// a witness commitment output with a wrong commitment: ignored before segwit,
+// a commitment mismatch (checkBlockContext) once segwit is active.
+func (rc *realChain) probeCommit(n *node) *btcutil.Block {
+	ts := rc.absTime(n.mtp).Add(30 * time.Second)
+	cb := rc.coinbase(n.height+1, 0, wire.MaxTxInSequenceNum)
+	cb.TxIn[0].Witness = wire.TxWitness{make([]byte, blockchain.CoinbaseWitnessDataLen)}
+	script := append([]byte{txscript.OP_RETURN, txscript.OP_DATA_36}, blockchain.WitnessMagicBytes[2:]...)
+	script = append(script, bytes32(0x33)...)
+	cb.AddTxOut(&wire.TxOut{Value: 0, PkScript: script})
+	return rc.makeBlock(n, vbTopBits, ts, []*wire.MsgTx{cb})
+}
+
 // verdict classes of a delivered block
 const (
 	vAccepted   = "accepted"
 	vUnfinal    = "rejected-unfinalized"
 	vScript     = "rejected-script"
+	vCommit     = "rejected-witness-commitment"
 	vOtherRule  = "rejected-other-rule"
 	vOtherError = "error"
 )
@@ -373,6 +455,9 @@ func classify(err error) string {
 		}
 		if re.ErrorCode == blockchain.ErrScriptValidation {
 			return vScript
+		}
+		if re.ErrorCode == blockchain.ErrWitnessCommitmentMismatch {
+			return vCommit
 		}
 		return vOtherRule + ":" + re.ErrorCode.String()
 	}
